@@ -510,6 +510,37 @@ def c18_streams(tier, seed):
             (["train", "quick", str(seed), "20" if q else "600"], train_classifier("C18"))]
 
 
+def cli_classifier(inner, prefixes):
+    """Stream `cli` (the workspace's command-line programs run as processes).  `inner`: classifier per line kind that
+    matters for the property; `prefixes`: which differences of the aggregated `cli` line matter for it.  Everything
+    else in the stream is ignored for this property (a defect in `tokenize` does not concern C14)."""
+    def classify(line, impl, mobs, extra):
+        kind = line.split(" ", 1)[0]
+        if kind in inner:
+            info = inner[kind](line, impl, mobs, extra)
+            info.setdefault("tags", []).append("via=cli-process")
+            return info
+        if kind == "cli" and prefixes:
+            diffs = impl[len("differs:"):].split(",") if impl.startswith("differs:") else []
+            rel = [d for d in diffs if d.startswith(prefixes)]
+            info = {"tags": ["via=cli-process", "cli=" + ("differs" if rel else "same")], "nontrivial": True, "ignore": not rel}
+            if rel:
+                t = line.split()
+                info["corr_fail"] = ("a command-line program disagrees with the library call it wraps: " + ",".join(rel) +
+                                     f" (re-run: VERIF_CLI_BIN=harness/target-cli/release VERIF_CLI_WORK=work/x harness/target/debug/vharness cli {t[1].split('.')[0]} <n>)")
+                info["ignore"] = False
+            return info
+        return {"tags": [], "nontrivial": False, "ignore": True}
+    return classify
+
+
+def with_cli(streams, inner, prefixes, nq, nt):
+    def f(tier, seed):
+        n = nq if tier == "quick" else nt
+        return list(streams(tier, seed)) + [(["cli", str(seed), str(n)], cli_classifier(inner, prefixes), {"cli": True})]
+    return f
+
+
 TRAINER_TB = ["rucrf 0.3.3 RawModel::merge ported (Model/Trainer.lean); CRF optimisation itself not modelled (theorems quantify over arbitrary raw models)",
               "IEEE-754 f64 arithmetic: the driver uses Lean Float (same operations in the same order), theorems are proved for an abstract weight structure / exact arithmetic; Float laws trusted",
               "bincode wire format of ModelData modelled; hashbrown iteration order = stored order of the image (theorems quantify over permutations)"]
@@ -581,7 +612,7 @@ PROPS = {
                      "Vibrato.C14.unk_rows_parse", "Vibrato.C14.ids_in_dims", "Vibrato.C14.matrix_rows_sorted",
                      "Vibrato.C14.user_policy", "Vibrato.C14.cost_is_truncation", "Vibrato.C14.cost_fits_i16",
                      "Vibrato.C14.cost_antitone", "Vibrato.C14.emitted_compiles_partial"],
-        "streams": train_streams("C14", 40, 2000),
+        "streams": with_cli(train_streams("C14", 40, 2000), {"train": train_classifier("C14")}, (), 12, 400),
         "rule": "tiny training set-ups (3-8 lexicon rows with homographs and quoted surfaces, generated char.def/unk.def, feature.def "
                 "with 1-4 unigram and 1-12 bigram templates incl. ? forms and %t, a few rewrite rules, <= 10 sentences) trained with "
                 "the real rucrf; per model 4 generate cases (reloaded image, with/without user lexicon, image written after "
@@ -597,7 +628,7 @@ PROPS = {
                      "Vibrato.C15.reload_generates_same", "Vibrato.C15.generate_respects_equiv",
                      "Vibrato.C15.user_lexicon_respects_equiv", "Vibrato.C15.generate_after_user_respects_equiv",
                      "Vibrato.C15.reloaded_user_file_empty"],
-        "streams": train_streams("C15", 40, 1000),
+        "streams": with_cli(train_streams("C15", 40, 1000), {"train": train_classifier("C15")}, (), 12, 400),
         "rule": "same set-ups as C14; histories generate, generate, write_model, read_model, generate, read_user_lexicon, generate, "
                 "write_model again; the model image is decoded and re-encoded byte-exactly by the Lean model",
         "trusted_base": TRAINER_TB,
@@ -607,7 +638,7 @@ PROPS = {
         "modules": ["Vibrato.Props.C16"],
         "theorems": ["Vibrato.C16.trunc_sum_bound", "Vibrato.C16.entry_close", "Vibrato.C16.bigram_matrix_close",
                      "Vibrato.C16.bigram_matrix_close_eos", "Vibrato.C16.bigram_matrix_close_bos", "Vibrato.C16.dims_agree"],
-        "streams": train_streams("C16", 40, 2000),
+        "streams": with_cli(train_streams("C16", 40, 2000), {"train": train_classifier("C16")}, (), 12, 400),
         "rule": "same set-ups as C14; the emitted bigram files are compiled with the raw and the dual connector and every cost is "
                 "compared with the matrix dictionary compiled from the emitted matrix.def; measured max difference vs K+1",
         "trusted_base": TRAINER_TB,
@@ -651,7 +682,7 @@ PROPS = {
                      "Vibrato.C07.dual_pinned_panics_below_8", "Vibrato.C07.avx2_eq_scalar",
                      "Vibrato.C07.raw_cost_deviates_pinned", "Vibrato.C07.dual_deviates_pinned",
                      "Vibrato.C07.raw_from_readers_empty_panics"],
-        "streams": c07_streams,
+        "streams": with_cli(c07_streams, {"conn": conn_classify}, ("compile-bigram",), 12, 400),
         "rule": "bigram models with 0..20 templates (biased to 0-2, 7-9, 15-17), ragged rows, shared and quoted feature strings, "
                 "BOS/EOS lines, the (empty, empty) pair listed in a third of the models, rare malformed edits; every cost(r,l) of "
                 "raw and dual connectors (portable and AVX2 builds) compared with the model and with the defining sum; scorer "
@@ -685,7 +716,7 @@ PROPS = {
                      "Vibrato.Mapper.matrix_cost_map", "Vibrato.Mapper.raw_cost_map", "Vibrato.Mapper.dual_cost_map",
                      "Vibrato.Mapper.conn_cost_map_fn", "Vibrato.Mapper.mapIds_total", "Vibrato.Mapper.map_compose",
                      "Vibrato.Mapper.unfixed_wrong_length_panics", "Vibrato.Mapper.unfixed_second_map_mistranslates"],
-        "streams": tok_streams("c06", 300, 10000, tok2_classifier("C06", has_dops)),
+        "streams": with_cli(tok_streams("c06", 300, 10000, tok2_classifier("C06", has_dops)), {}, ("map-",), 12, 400),
         "rule": "random histories of {map (valid permutations and malformed iterators: 0, duplicate, omission, short, long), "
                 "load user lexicon (incl. out-of-range ids), clear, write/read} followed by tokenization; tokens must equal those of "
                 "the unmapped dictionary with the same user lexicon up to ids; non-trivial = at least one dictionary operation and tokens",
@@ -770,7 +801,7 @@ PROPS = {
         "theorems": ["Vibrato.C05.decode_encode", "Vibrato.C05.reread_equal", "Vibrato.C05.trailing_ignored",
                      "Vibrato.C05.rewrite_same_bytes", "Vibrato.C05.behaviour_congr", "Vibrato.C05.accepted_is_wf",
                      "Vibrato.C05.reread_accepted", "Vibrato.C05.write_len", "Vibrato.C05.lane_repr_irrelevant"],
-        "streams": image_streams("C05"),
+        "streams": with_cli(image_streams("C05"), {}, ("compile-image", "compile-not-zstd", "compile-status"), 12, 400),
         "post_check": c05_cross_build,
         "rule": "dictionaries of all three connector kinds built from generated sources, then a random history of "
                 "{load user lexicon, map ids, write/read}; the whole image is decoded and re-encoded by the Lean model "
@@ -811,7 +842,7 @@ PROPS = {
                      "Vibrato.Corpus.malformed_line_err", "Vibrato.Corpus.invalid_utf8_err",
                      "Vibrato.Corpus.mecabOutput_eq_write", "Vibrato.Corpus.tokenizer_output_parses",
                      "Vibrato.Corpus.tokenizer_outputs_parse"],
-        "streams": simple_streams("corpus", 1000, 30000, corpus_classify),
+        "streams": with_cli(simple_streams("corpus", 1000, 30000, corpus_classify), {"corpus": corpus_classify}, ("tokenize-output-mecab", "tokenize-status"), 12, 400),
         "rule": "three generators: byte soup over a CR/LF/TAB/EOS/UTF-8-edge alphabet (20%), structured corpora with "
                 "varied terminators and rare garbage lines (50%), real tokenizer output rendered as `tokenize -O mecab` "
                 "prints it (30%); non-trivial = at least one example parsed, or a tokenizer case",
@@ -835,7 +866,7 @@ PROPS = {
         "theorems": ["Vibrato.reset_then_tokenize_fresh", "Vibrato.history_independent", "Vibrato.tokenize_idempotent",
                      "Vibrato.tokenize_twice_doubles", "Vibrato.interleave_independent",
                      "Vibrato.buildLattice_buffer_indep"],
-        "streams": c04_streams,
+        "streams": with_cli(c04_streams, {}, ("tokenize-output-detail",), 12, 400),
         "pre_checks": audit_shared_state,
         "rule": "random worker histories (reset incl. empty and shorter-after-longer sentences, repeated tokenize, "
                 "reads before tokenize, lattice dumps, counter ops) on one worker; non-trivial = some read returned tokens",
